@@ -76,3 +76,18 @@ fn c_const_generic<'a, const N: usize>(deps: &'a App, keys: [&str; N]) -> [&'a s
 fn c_wrapper_generic<T: Clone>(deps: &Wrapper<u8>, t: T, t2: T) -> T {
     t2
 }
+
+/// `?Send` with a concrete dependency: the future may hold non-Send state
+#[entrait(CNoSend, ?Send)]
+async fn c_no_send(deps: &App, a: std::rc::Rc<u8>) -> std::rc::Rc<u8> {
+    let held = std::rc::Rc::new(1u8);
+    c_async(deps, 1, 2).await;
+    drop(held);
+    a
+}
+#[entrait(CNoSendBorrowed, ?Send)]
+async fn c_no_send_borrowed<'a>(deps: &'a App, a: &'a std::rc::Rc<str>) -> &'a str {
+    c_async(deps, 1, 2).await;
+    a
+}
+pub struct LocalApp(pub std::rc::Rc<u8>);
